@@ -4,6 +4,7 @@ import (
 	"encoding/hex"
 	"fmt"
 	"math/rand"
+	"sort"
 
 	"github.com/corazawaf/coraza/v3/verifharness/vh"
 )
@@ -356,7 +357,7 @@ func genCase(rng *rand.Rand, cfg vh.Config, i int) *Case {
 	respBody := bodyAround(rng, respLen, c.RespLimit, respMarker, rwhere)
 	c.Ops = genOps(rng, c, respBody)
 	// a few large exchanges: buffer spill to a file, bufio and io.Copy chunk boundaries
-	if cfg.Thorough() && i%4000 == 17 || !cfg.Thorough() && i == 17 {
+	if cfg.Thorough() && i%4000 == 17 {
 		big := 33000 + rng.Intn(3000)
 		c.Mode = "server"
 		c.LenBody = false
@@ -517,7 +518,12 @@ func memGridCases(cfg vh.Config) []*Case {
 					sizes[n] = true
 				}
 			}
+			var ns []int
 			for n := range sizes {
+				ns = append(ns, n)
+			}
+			sort.Ints(ns)
+			for _, n := range ns {
 				if n < 2 || n > len(body) {
 					continue
 				}
